@@ -10,6 +10,13 @@ RULE = ("all versions x optional-block multisets: total block length exhaustivel
 
 def parse_blocks(s, n):
     """independent parser of n optional blocks at the start of s -> (list[(id, data)], consumed) or None"""
+    try:
+        return _parse_blocks(s, n)
+    except ValueError:      # a length field that is not hex / is cut short: the blocks do not parse
+        return None
+
+
+def _parse_blocks(s, n):
     out, i = [], 0
     for _ in range(n):
         bid, ls = s[i:i + 2], s[i + 2:i + 4]
